@@ -19,6 +19,10 @@ CHECKS = {
  'C18': dict(level=MC, tech='TLA+ grammar/printer model (DtText.tla) model-checked for Parse(Print(i)) = i; trace validation of recorded dt_strf/dt_strf_ical/dt_strp/idiff_strf/idiff_strp calls',
    text='E1: TLC checks on the model that both print forms parse back to the same instant for a field-boundary grid and that equivalent duration spellings denote one value. E2: every recorded print->parse round trip and every parse of an accepted spelling made by the real code is judged by TLC: the printed text is the grammar text of the instant, the parsed instant/duration is what the grammar says, round trips are identities (second resolution for the iCalendar form).',
    note='trusted: TLC, DtText.tla, printing-only driver. Sub-second durations, negative durations and spellings outside the stated grammar are skipped as outside the property (counted).', ref='3/C18'),
+
+ 'C15': dict(level=MC, tech='relational TLA+ contract (Scale.tla: round trip, successor, month length, weekday) model-checked for discrimination; exhaustive trace validation of every (scale, day) conversion of the real code',
+   text='E1: TLC shows on a synthetic lunar calendar that the step relation accepts exactly the true successor date. E2: for each of the 10 scales every Gregorian day of 1901-2099 (thorough: all 72 684; quick: every 5th year plus all month boundaries) is converted by the real echs_instant_rescale and back, with echs_scale_ndim/echs_scale_wday recorded; TLC checks on consecutive lines: G(H(d)) = d, H(d+1) = Succ(H(d)) (which with day <= ndim makes ndim the distance between firsts), weekday equality against Cal.tla, month in 1..12, and that rejected days never lie inside the accepted span.',
+   note='trusted: TLC, Cal.tla weekday, printing-only driver. No external Hijri reference is used (none exists offline): the data tables themselves are not audited, only their consistency.', ref='3/C15'),
 }
 NA_REASON = 'check not built yet (construction in progress, see DESIGN.md section 10)'
 hooks = {'guard': 'HROPTATYR_ECHSE_VERIF', 'enable': 'no hooks in /repo: checks compile /repo/src as it is (harness/build.sh) and observe through existing seams', 'baseline_off_cmd': 'make -C /repo check', 'source_commits': [], 'add_only': True}
